@@ -48,6 +48,19 @@ ExpectedVersion(nsdecl) == IF nsdecl THEN 2 ELSE 1
 FlatLT == {1, 2}
 GroupedLT == {3, 4, 13, 14, 114}
 
+(* Part C (beyond the listed properties): the dispatch tables of the API, as a total description *)
+GuessOptionsLT(isQuads) == IF isQuads THEN 2 ELSE 1                       \* guess_options of both integrations
+GuessStreamCls(lt, isQuads) == IF (lt % 10) # 3 /\ isQuads THEN "quad" ELSE "triple"     \* guess_stream picks the class ...
+GuessStreamClass(lt, isQuads) ==                                                        \* ... and constructs it (type check)
+  IF SpecForbids(PTypeOf(GuessStreamCls(lt, isQuads)), lt) THEN "JellyAssertionError" ELSE GuessStreamCls(lt, isQuads)
+StreamForType(pt) == CASE pt = 1 -> "triple" [] pt = 2 -> "quad" [] pt = 3 -> "graph" [] OTHER -> "NotImplementedError"
+FlowForTypeOrErr(lt) == IF lt % 10 \in 1..4 THEN FlowForType(lt) ELSE "NotImplementedError"
+LTSeq == <<0, 1, 2, 3, 4, 13, 14, 114>>
+Dispatch == [guess_options |-> [triples |-> GuessOptionsLT(FALSE), quads |-> GuessOptionsLT(TRUE)],
+             guess_stream |-> [i \in 1..8 |-> [lt |-> LTSeq[i], triples |-> GuessStreamClass(LTSeq[i], FALSE), quads |-> GuessStreamClass(LTSeq[i], TRUE)]],
+             stream_for_type |-> [i \in 1..4 |-> [pt |-> i - 1, cls |-> StreamForType(i - 1)]],
+             flow_for_type |-> [i \in 1..8 |-> [lt |-> LTSeq[i], flow |-> FlowForTypeOrErr(LTSeq[i])]]]
+
 VARIABLES cfg, pc, kind, flowLT, fsz, buf, pend, written, sinks, stmts, raised
 vars == <<cfg, pc, kind, flowLT, fsz, buf, pend, written, sinks, stmts, raised>>
 
@@ -115,6 +128,7 @@ Spec == Init /\ [][Next]_vars
 NoSilentDrop == pc = "returned" => (raised # "" \/ (pend = 0 /\ buf = 0 /\ written = 2 * cfg.nsinks))
 RefusesForbidden == pc = "returned" /\ SpecForbids(PTypeOf(cfg.sclass), flowLT) => raised # ""
 
+PrintDispatch == pc = "construct" => PrintT("DISPATCH " \o ToJson(Dispatch))
 PrintOutcome ==
   pc = "returned" => PrintT("OUTCOME " \o ToJson([cfg |-> cfg, kind |-> kind, lt |-> flowLT, fsz |-> fsz, raised |-> raised,
                                                    written |-> written, left |-> pend]))
